@@ -15,7 +15,7 @@
 //! redundant refs and shared targets are included) that covers the tips, assigned to the
 //! namespaces in ref-enumeration order — which enumerates both "which namespaces point at what"
 //! and the enumeration order of the tip refs. In addition the same DAG is written into a second
-//! repository children-first ("received in a different order") and evaluated there.
+//! repository in the reverse linear extension ("received in a different order") and evaluated there.
 //!
 //! Oracle (purely differential): all evaluations of one item are equal — object (serialised and
 //! `Debug`), manifest, and the complete history graph (node set, edges, tips).
@@ -170,7 +170,7 @@ fn presentations(n: usize, tips: &[usize], max_len: usize) -> Vec<Vec<usize>> {
 struct Worlds {
     /// Changes written parents-first.
     w1: World,
-    /// Same identity, changes written children-first.
+    /// Same identity, changes written in the reverse linear extension.
     w2: World,
 }
 
@@ -267,12 +267,19 @@ fn eval_plan(seed: u64, plan: &Plan, pres: PresSet, variant: usize) -> ItemOut {
         }
         ws.w1.clear(&ty, &built.obj);
         let (rseq, r) = reference.expect("at least one presentation");
-        // Different order of arrival: children first, into a repository that has seen nothing.
-        if kind != Kind::Identity || n > 0 {
-            for i in (0..=n).rev() {
-                if kind == Kind::Identity && i == 0 {
-                    continue; // the identity root is the repository's own
-                }
+        // Different order of arrival: a second repository that has seen nothing receives the
+        // changes in the reverse linear extension (always the largest-index change whose parents
+        // are present; `store` refuses a change whose parents are absent).
+        {
+            let mut written: BTreeSet<usize> = BTreeSet::new();
+            if kind == Kind::Identity {
+                written.insert(0); // the identity root is the repository's own
+            }
+            while written.len() <= n {
+                let i = (0..=n)
+                    .rev()
+                    .find(|i| !written.contains(i) && plan.shape.parents_of(*i).iter().all(|p| written.contains(p)))
+                    .expect("a DAG always has a writable node");
                 // Identity documents referenced by the changes must exist before evaluation.
                 for (_, blob) in &built.specs[i].embeds {
                     let bytes = ws.w1.repo.backend.find_blob(**blob).expect("blob").content().to_vec();
@@ -280,6 +287,7 @@ fn eval_plan(seed: u64, plan: &Plan, pres: PresSet, variant: usize) -> ItemOut {
                 }
                 let id = ws.w2.write(&built.specs[i]);
                 assert_eq!(id, built.ids[i], "the same specification has the same id in both repositories");
+                written.insert(i);
             }
             let refs: Vec<(usize, Oid)> = rseq.iter().enumerate().map(|(ns, node)| (ns, built.ids[*node])).collect();
             ws.w2.present(&ty, &built.obj, &refs);
@@ -290,7 +298,7 @@ fn eval_plan(seed: u64, plan: &Plan, pres: PresSet, variant: usize) -> ItemOut {
                 vs.push(
                     Violation::new(
                         format!("C05/{}/arrival-order-changes-result/{d}", kind.name()),
-                        format!("{}: the same change set written children-first into a second repository evaluates differently: {d}", kind.name()),
+                        format!("{}: the same change set written in another order into a second repository evaluates differently: {d}", kind.name()),
                         json!({"plan": plan_json(plan, Some(&built)), "presentation_a": rseq, "pres_max_len": max_len, "variant": variant,
                                "result_a": describe_eval(&r), "result_b": describe_eval(&e)}),
                     )
@@ -367,6 +375,20 @@ fn main() {
         let (plan, variant) = fams[k].plan(j);
         eval_plan(seed, &plan, fams[k].pres, variant)
     };
+    // Diagnostic aid (not part of the check): `C05_RANGE=lo..hi` runs the items in-process and
+    // prints their outcome labels.
+    if let Ok(r) = std::env::var("C05_RANGE") {
+        let (lo, hi) = r.split_once("..").map(|(a, b)| (a.parse::<u64>().unwrap(), b.parse::<u64>().unwrap())).unwrap();
+        let t = std::time::Instant::now();
+        for i in lo..hi.min(total) {
+            let o = eval_i(i);
+            println!("{i} {} violations={}", o.outcome, o.violations.len());
+        }
+        println!("{} items in {:?}", hi.min(total) - lo, t.elapsed());
+        WORLDS.with(|c| c.borrow_mut().take());
+        drop(scratch);
+        std::process::exit(0);
+    }
     let describe = |i: u64| {
         let (k, j) = locate(&fams, i);
         let (plan, variant) = fams[k].plan(j);
@@ -404,7 +426,7 @@ fn main() {
     }
     let mut cov = st.coverage(
         "items = (object type, DAG shape on root + n changes given by every non-empty parent set per change, timestamp pattern, rank order of the change ids, payload variant) \
-         enumerated by index over the listed families; per item every covering sequence of ref targets over the namespaces (plus one children-first rebuild in a second repository) \
+         enumerated by index over the listed families; per item every covering sequence of ref targets over the namespaces (plus one rebuild in reverse linear-extension order in a second repository) \
          is evaluated with cob::get and compared; an item is non-trivial when n >= 2; distinct = distinct (type, shape, timestamp pattern, variant), rank orders not counted",
         samples,
     );
